@@ -244,6 +244,7 @@ func runC02(c *Ctx) {
 	}
 
 	checkClassPresence(c, "R2.1")
+	checkRuneHelperResults(c, "R2.1")
 	checkEpsilonCollision(c, classes)
 	np := c.Pkg("internal/regex/parser/nfa")
 	if fd := FuncDecl(np, "", "quantifyNFA"); fd != nil {
@@ -1260,4 +1261,61 @@ func checkClassPresence(c *Ctx, rule string) {
 		}
 	}
 	c.Extra("class_presence_sites", n)
+}
+
+// checkRuneHelperResults: the helpers that turn a set of runes into an automaton (or an alternation) take a negation flag and
+// hand back, besides the automaton, the runes it actually accepts, that is the complement when the flag is set. An enclosing
+// bracket group reads only that second result. A caller that may negate and throws the second result away (keeping the
+// un-negated runes it passed in) makes `[\P{L}]` mean `[\p{L}]`.
+func checkRuneHelperResults(c *Ctx, rule string) {
+	n := 0
+	for _, pkgPath := range []string{"internal/regex/parser/nfa", "internal/regex/parser/ast"} {
+		p := c.Pkg(pkgPath)
+		if p == nil {
+			continue
+		}
+		spk := c.SSAPk[p.PkgPath]
+		if spk == nil {
+			continue
+		}
+		for _, f := range allFuncsOfPkg(spk) {
+			allCalls(f, func(call ssa.CallInstruction) {
+				cv, ok := call.(*ssa.Call)
+				if !ok {
+					return
+				}
+				callee := cv.Call.StaticCallee()
+				if callee == nil || callee.Pkg != spk || callee.Signature.Recv() != nil {
+					return
+				}
+				sig := callee.Signature
+				if sig.Params().Len() < 2 || sig.Results().Len() != 2 {
+					return
+				}
+				if b, ok := sig.Params().At(0).Type().Underlying().(*types.Basic); !ok || b.Kind() != types.Bool {
+					return
+				}
+				sl, ok := sig.Results().At(1).Type().Underlying().(*types.Slice)
+				if !ok || !isRune(sl.Elem()) {
+					return
+				}
+				n++
+				used := false
+				for _, r := range *cv.Referrers() {
+					if ex, ok := r.(*ssa.Extract); ok && ex.Index == 1 && ex.Referrers() != nil && len(*ex.Referrers()) > 0 {
+						used = true
+					}
+				}
+				negConstFalse := false
+				if k, ok := cv.Call.Args[0].(*ssa.Const); ok && k.Value != nil && k.Value.String() == "false" {
+					negConstFalse = true
+				}
+				key := fmt.Sprintf("%s: the runes %s reports as accepted are what the caller hands on", shortFn(f), callee.Name())
+				c.Check(rule, key, cv.Pos(), used || negConstFalse,
+					"the helper is called with a negation flag that can be true and its second result (the runes accepted after negation) is thrown away: a bracket group around the negated class sees the un-negated runes",
+					"[\\P{L}] accepts a letter and rejects a digit; [^\\P{L}] the other way round")
+			})
+		}
+	}
+	c.Extra("rune_helper_call_sites", n)
 }
